@@ -54,6 +54,9 @@ fn key_of(module: &(dyn Module + Sync)) -> u8 {
         return 3;
     }
     let f = module.code_file().to_string();
+    if f.contains("\\other\\") {
+        return 4;
+    }
     f.rsplit('\\').next().unwrap_or("").trim_start_matches("mod").trim_end_matches(".dll").parse().expect("mock key")
 }
 #[async_trait::async_trait]
@@ -120,7 +123,19 @@ impl FrameWalker for Walker {
 /// its own supplier call and get its own stats entry.
 /// key 3: ANOTHER BUILD of key 0 — same code file, code id and debug file, a different debug id (a DLL
 /// replaced on disk while the process runs). Also a distinct module.
+/// key 4: a file of key 0's NAME in another directory, with the same debug file and no identifiers (two
+/// unrelated libraries that happen to share a file name). Also a distinct module.
+fn leaf_key(k: u8) -> u8 {
+    if k == 3 || k == 4 {
+        0
+    } else {
+        k
+    }
+}
 fn module(k: u8) -> SimpleModule {
+    if k == 4 {
+        return SimpleModule::from_basic_info(Some("mod0.pdb".into()), Some(debugid::DebugId::nil()), Some("C:\\other\\mod0.dll".into()), None);
+    }
     if k == 3 {
         let id: debugid::DebugId = "07070707-0707-0707-0707-070707070707-3".parse().expect("debug id");
         return SimpleModule::from_basic_info(Some("mod0.pdb".into()), Some(id), Some("C:\\dir\\mod0.dll".into()), None);
@@ -231,17 +246,17 @@ fn check(cfg: &Cfg, x: &Execution, b: &Built) -> Option<(String, String)> {
     }
     let st = b.sym.stats();
     let names: BTreeSet<String> = st.keys().cloned().collect();
-    let want_names: BTreeSet<String> = wanted.iter().map(|k| format!("mod{}.dll", if *k == 3 { 0 } else { *k })).collect();
+    let want_names: BTreeSet<String> = wanted.iter().map(|k| format!("mod{}.dll", leaf_key(*k))).collect();
     if names != want_names {
         return Some(("c12:stats-entries".into(), format!("stats() keys {names:?} != {want_names:?}")));
     }
     for k in &wanted {
-        // keys 0 and 3 are two builds of mod0.dll: they share one stats entry (keyed by leaf name), whose
+        // keys 0, 3 and 4 all have the file name mod0.dll: they share one stats entry (keyed by leaf name), whose
         // flags come from whichever was located last — not compared when both were asked for
-        if (*k == 0 || *k == 3) && wanted.contains(&0) && wanted.contains(&3) {
+        if wanted.iter().filter(|w| leaf_key(**w) == leaf_key(*k)).count() > 1 {
             continue;
         }
-        let s = &st[&format!("mod{}.dll", if *k == 3 { 0 } else { *k })];
+        let s = &st[&format!("mod{}.dll", leaf_key(*k))];
         let a = cfg.answers[*k as usize];
         let want = match a {
             0 => (true, false),
@@ -423,6 +438,19 @@ fn configs(tier: Tier) -> Vec<Cfg> {
             for susp in 0..=(if t == 2 { 2 } else { 1 }) {
                 push(&ts, susp, vec![0, 0, 0, 1], 1, 0);
                 push(&ts, susp, vec![2, 0, 0, 0], 0, 0);
+            }
+        }
+    }
+    // --- two files of one name in different directories (key 4 = key 0's file name elsewhere, no identifiers)
+    let dir_scripts: Vec<Vec<(u8, u8)>> = vec![vec![(0, 0)], vec![(0, 4)], vec![(0, 0), (0, 4)], vec![(0, 4), (0, 0)], vec![(1, 4)]];
+    for t in 2..=3 {
+        for ts in multisets(&dir_scripts, t) {
+            if !ts.iter().flatten().any(|(_, k)| *k == 4) || !ts.iter().flatten().any(|(_, k)| *k == 0) {
+                continue;
+            }
+            for susp in 0..=(if t == 2 { 2 } else { 1 }) {
+                push(&ts, susp, vec![0, 0, 0, 0, 1], 1, 0);
+                push(&ts, susp, vec![2, 0, 0, 0, 0], 0, 0);
             }
         }
     }
